@@ -21,12 +21,13 @@ impl TypeInference {
                 && params.len() == typed_args.len()
             {
                 for (arg, param_ty) in typed_args.iter_mut().zip(params.iter()) {
-                    if let TypedExprKind::Int(value) = &arg.kind
+                    if let Some(value) = arg.int_literal_value()
                         && param_ty.is_integer()
                         && *param_ty != InferType::I64
                     {
+                        let value = &value;
                         if InferType::int_fits(*value, param_ty) {
-                            arg.ty = param_ty.clone();
+                            arg.retype_int_literal(param_ty);
                         } else {
                             self.errors.push(TypeError {
                                 kind: TypeErrorKind::Mismatch {
